@@ -1,4 +1,1150 @@
-//! C18 — io_uring ring (stub, filled in below).
+//! C18 — io_uring ring. `turmoil-fs` + `turmoil-io-uring` are driven standalone (no `Sim`): the harness owns
+//! `Arc<Mutex<Fs>>` / `Arc<Mutex<IoUringHostState>>`, enters both with its own clock, and re-enters with a
+//! later `now` to advance ring time. A *twin* `Fs` with the same configuration receives, through the
+//! synchronous shim (`read_at` / `write_at` / `sync_all`), every operation whose completion the ring reports,
+//! at the moment it reports it — the "same as the synchronous API" oracle is evaluated on these two real
+//! implementations' observations.
+//!
+//! Trace (actor `r<i>` = ring i, `f<k>` = file k, `ctl`):
+//!   OP ctl newring <entries>                         OBS ring <id> | invalid
+//!   OP r<i> push <ud> read <fd> <off> <len> [link]   OBS pushed | full
+//!   OP r<i> push <ud> write <fd> <off> <hex> [link]
+//!   OP r<i> push <ud> fsync <fd> [link] | push <ud> cancel <target>
+//!   OP r<i> submit | submitwait <n> | submitbadts    ORA lat <ud>:<ns> ...   OBS submitted <n> | err <kind>
+//!   OP r<i> cqnew | cqsync | next | readable | dropring
+//!       OBS unit | synced <n> | none | cqe <ud> <res> buf=<hex> twin=<res> twinbuf=<hex> | ready | pending | err <kind>
+//!   OP ctl advance <ns> | crash | final
+//!   OP f<k> fwrite <off> <hex> | fread <off> <len> | fsync | close | open
+//!       OBS io <res> buf=<hex> twin=<res> twinbuf=<hex> | unit
+//!   final: OBS final files=<hex>,.. twinfiles=<hex>,.. untouched=<ud>:<0|1>,..
+
+use crate::util::{self, catch, hex, poll_once, unhex, Rng};
 use crate::Args;
+use std::collections::BTreeMap;
 use std::io::Write;
-pub fn main(_args: &Args, _out: &mut dyn Write) {}
+use std::os::fd::{AsRawFd, RawFd};
+use std::os::unix::fs::FileExt;
+use std::sync::{Arc, Mutex};
+use std::task::Poll;
+use std::time::Duration;
+use turmoil_fs::shim::std::fs::{create_dir_all, sync_dir, File, OpenOptions};
+use turmoil_fs::{Fs, FsConfig};
+use turmoil_io_uring::cqueue::CompletionQueue;
+use turmoil_io_uring::host::IoUringHostState;
+use turmoil_io_uring::{opcode, squeue, types, AsyncFd, IoUring};
+
+const SENTINEL: u8 = 0xAA;
+
+#[derive(Clone, Debug, PartialEq)]
+pub enum Kind {
+    Read { fd: u32, off: u64, len: u32 },
+    Write { fd: u32, off: u64, data: Vec<u8> },
+    Fsync { fd: u32 },
+    Cancel { target: u64 },
+}
+
+#[derive(Clone, Debug, PartialEq)]
+pub enum Op {
+    NewRing(u32),
+    Push { ring: u32, ud: u64, kind: Kind, link: bool },
+    Submit { ring: u32, mode: u8, want: u32 }, // mode 0 submit, 1 submit_and_wait, 2 submit_with_args(bad timespec)
+    CqNew(u32),
+    CqSync(u32),
+    Next(u32),
+    /// closing phase only: a `next` that is skipped (not executed, not traced) once the ring returned `none`
+    /// since its last `cqsync`
+    NextOpt(u32),
+    Readable(u32),
+    DropRing(u32),
+    Advance(u64),
+    Crash,
+    Final,
+    FWrite { fd: u32, off: u64, data: Vec<u8> },
+    FRead { fd: u32, off: u64, len: u32 },
+    FSync { fd: u32 },
+    FClose(u32),
+    FOpen(u32),
+}
+
+impl Op {
+    fn text(&self) -> String {
+        match self {
+            Op::NewRing(n) => format!("ctl newring {n}"),
+            Op::Push { ring, ud, kind, link } => {
+                let l = if *link { " link" } else { "" };
+                match kind {
+                    Kind::Read { fd, off, len } => format!("r{ring} push {ud} read {fd} {off} {len}{l}"),
+                    Kind::Write { fd, off, data } => format!("r{ring} push {ud} write {fd} {off} {}{l}", hex(data)),
+                    Kind::Fsync { fd } => format!("r{ring} push {ud} fsync {fd}{l}"),
+                    Kind::Cancel { target } => format!("r{ring} push {ud} cancel {target}{l}"),
+                }
+            }
+            Op::Submit { ring, mode, want } => match mode {
+                0 => format!("r{ring} submit"),
+                1 => format!("r{ring} submitwait {want}"),
+                _ => format!("r{ring} submitbadts"),
+            },
+            Op::CqNew(r) => format!("r{r} cqnew"),
+            Op::CqSync(r) => format!("r{r} cqsync"),
+            Op::Next(r) | Op::NextOpt(r) => format!("r{r} next"),
+            Op::Readable(r) => format!("r{r} readable"),
+            Op::DropRing(r) => format!("r{r} dropring"),
+            Op::Advance(ns) => format!("ctl advance {ns}"),
+            Op::Crash => "ctl crash".into(),
+            Op::Final => "ctl final".into(),
+            Op::FWrite { fd, off, data } => format!("f{fd} fwrite {off} {}", hex(data)),
+            Op::FRead { fd, off, len } => format!("f{fd} fread {off} {len}"),
+            Op::FSync { fd } => format!("f{fd} fsync"),
+            Op::FClose(fd) => format!("f{fd} close"),
+            Op::FOpen(fd) => format!("f{fd} open"),
+        }
+    }
+
+    fn parse(t: &[String]) -> Option<Op> {
+        let actor = t.first()?;
+        let idx: u32 = actor.get(1..).and_then(|s| s.parse().ok()).unwrap_or(0);
+        let name = t.get(1)?.as_str();
+        let n = |i: usize| -> Option<u64> { t.get(i)?.parse().ok() };
+        Some(match name {
+            "newring" => Op::NewRing(n(2)? as u32),
+            "push" => {
+                let ud = n(2)?;
+                let link = t.last().map(|s| s == "link").unwrap_or(false);
+                let kind = match t.get(3)?.as_str() {
+                    "read" => Kind::Read { fd: n(4)? as u32, off: n(5)?, len: n(6)? as u32 },
+                    "write" => Kind::Write { fd: n(4)? as u32, off: n(5)?, data: unhex(t.get(6)?) },
+                    "fsync" => Kind::Fsync { fd: n(4)? as u32 },
+                    "cancel" => Kind::Cancel { target: n(4)? },
+                    _ => return None,
+                };
+                Op::Push { ring: idx, ud, kind, link }
+            }
+            "submit" => Op::Submit { ring: idx, mode: 0, want: 0 },
+            "submitwait" => Op::Submit { ring: idx, mode: 1, want: n(2)? as u32 },
+            "submitbadts" => Op::Submit { ring: idx, mode: 2, want: 0 },
+            "cqnew" => Op::CqNew(idx),
+            "cqsync" => Op::CqSync(idx),
+            "next" => Op::Next(idx),
+            "readable" => Op::Readable(idx),
+            "dropring" => Op::DropRing(idx),
+            "advance" => Op::Advance(n(2)?),
+            "crash" => Op::Crash,
+            "final" => Op::Final,
+            "fwrite" => Op::FWrite { fd: idx, off: n(2)?, data: unhex(t.get(3)?) },
+            "fread" => Op::FRead { fd: idx, off: n(2)?, len: n(3)? as u32 },
+            "fsync" => Op::FSync { fd: idx },
+            "close" => Op::FClose(idx),
+            "open" => Op::FOpen(idx),
+            _ => return None,
+        })
+    }
+}
+
+#[derive(Clone, Debug)]
+pub struct Cfg {
+    nfiles: u32,
+    lat_min: u64, // ns; 0,0 = latency not configured
+    lat_max: u64,
+    cache: bool,
+    fs_seed: u64,
+    init: Vec<Vec<u8>>,
+}
+
+fn fs_config(c: &Cfg) -> FsConfig {
+    let mut cfg = FsConfig::default();
+    if c.lat_max > 0 {
+        cfg.io_latency().min_latency(Duration::from_nanos(c.lat_min)).max_latency(Duration::from_nanos(c.lat_max));
+    }
+    if c.cache {
+        cfg.page_cache().page_size(16).max_pages(4);
+    }
+    cfg
+}
+
+struct FdOnly(RawFd);
+impl AsRawFd for FdOnly {
+    fn as_raw_fd(&self) -> RawFd {
+        self.0
+    }
+}
+
+struct RingH {
+    ring: Option<IoUring>,
+    cq: Option<CompletionQueue<'static>>,
+    afd: Option<AsyncFd<FdOnly>>,
+}
+
+struct SqeInfo {
+    ring: u32,
+    ud: u64,
+    kind: Kind,
+    link: bool,
+    buf: usize,
+    done: bool,
+    /// generation of the file handle whose fd the SQE carries
+    gen: u32,
+}
+
+struct World {
+    cfg: Cfg,
+    fs: Arc<Mutex<Fs>>,
+    twin: Arc<Mutex<Fs>>,
+    iou: Arc<Mutex<IoUringHostState>>,
+    now: Duration,
+    files: Vec<Option<File>>,
+    stale_fd: Vec<RawFd>,
+    gen: Vec<u32>,
+    twin_files: Vec<Option<File>>,
+    rings: Vec<RingH>,
+    bufs: Vec<Box<[u8]>>,
+    sqes: Vec<SqeInfo>,
+}
+
+fn path(k: usize) -> String {
+    format!("/u/f{k}")
+}
+
+fn open_rw(p: &str) -> std::io::Result<File> {
+    OpenOptions::new().read(true).write(true).create(true).open(p)
+}
+
+impl World {
+    fn new(cfg: Cfg) -> World {
+        let fs = Arc::new(Mutex::new(Fs::new(fs_config(&cfg), cfg.fs_seed)));
+        let twin = Arc::new(Mutex::new(Fs::new(fs_config(&cfg), cfg.fs_seed ^ 0x5555)));
+        let iou = Arc::new(Mutex::new(IoUringHostState::new()));
+        let cfg_nfiles = cfg.nfiles as usize;
+        let mut w = World {
+            cfg,
+            fs,
+            twin,
+            iou,
+            now: Duration::ZERO,
+            files: vec![],
+            stale_fd: vec![],
+            gen: vec![0; cfg_nfiles],
+            twin_files: vec![],
+            rings: vec![],
+            bufs: vec![],
+            sqes: vec![],
+        };
+        for twin in [false, true] {
+            let arc = if twin { w.twin.clone() } else { w.fs.clone() };
+            let _g = turmoil_fs::enter(&arc, turmoil_fs::EnterCtx { now: w.now, on_corruption: None });
+            create_dir_all("/u").expect("mkdir");
+            sync_dir("/").expect("sync /");
+            let mut fl = vec![];
+            for k in 0..w.cfg.nfiles as usize {
+                let f = open_rw(&path(k)).expect("open");
+                if !w.cfg.init[k].is_empty() {
+                    f.write_at(&w.cfg.init[k], 0).expect("init write");
+                }
+                f.sync_all().expect("sync_all");
+                fl.push(Some(f));
+            }
+            sync_dir("/u").expect("sync /u");
+            if twin {
+                w.twin_files = fl;
+            } else {
+                w.stale_fd = fl.iter().map(|f| f.as_ref().unwrap().as_raw_fd()).collect();
+                w.files = fl;
+            }
+        }
+        w
+    }
+
+    fn raw_fd(&self, fd: u32) -> RawFd {
+        match self.files.get(fd as usize) {
+            Some(Some(f)) => f.as_raw_fd(),
+            Some(None) => self.stale_fd[fd as usize],
+            None => 999_999_999,
+        }
+    }
+
+    /// Run `f` with the main fs and the ring registry entered at the current time.
+    fn entered<R>(&mut self, f: impl FnOnce(&mut World) -> R) -> R {
+        let fs = self.fs.clone();
+        let iou = self.iou.clone();
+        let _g1 = turmoil_fs::enter(&fs, turmoil_fs::EnterCtx { now: self.now, on_corruption: None });
+        let _g2 = turmoil_io_uring::host::enter(&iou, turmoil_io_uring::host::EnterCtx { now: self.now });
+        f(self)
+    }
+
+    /// The same operation through the synchronous API on the twin fs. `None` = file closed (no handle).
+    fn twin_apply(&mut self, kind: &Kind) -> (i64, Vec<u8>) {
+        let twin = self.twin.clone();
+        let _g = turmoil_fs::enter(&twin, turmoil_fs::EnterCtx { now: self.now, on_corruption: None });
+        let file = |fd: u32| self.twin_files.get(fd as usize).and_then(|f| f.as_ref());
+        match kind {
+            Kind::Read { fd, off, len } => match file(*fd) {
+                None => (-9, vec![SENTINEL; *len as usize]),
+                Some(f) => {
+                    let mut b = vec![SENTINEL; *len as usize];
+                    match f.read_at(&mut b, *off) {
+                        Ok(n) => (n as i64, b),
+                        Err(_) => (-5, b),
+                    }
+                }
+            },
+            Kind::Write { fd, off, data } => match file(*fd) {
+                None => (-9, vec![]),
+                Some(f) => match f.write_at(data, *off) {
+                    Ok(n) => (n as i64, vec![]),
+                    Err(_) => (-5, vec![]),
+                },
+            },
+            Kind::Fsync { fd } => match file(*fd) {
+                None => (-9, vec![]),
+                Some(f) => match f.sync_all() {
+                    Ok(()) => (0, vec![]),
+                    Err(_) => (-5, vec![]),
+                },
+            },
+            Kind::Cancel { .. } => (0, vec![]),
+        }
+    }
+
+    fn whole_file(&mut self, twin: bool, k: usize) -> Vec<u8> {
+        let arc = if twin { self.twin.clone() } else { self.fs.clone() };
+        let _g = turmoil_fs::enter(&arc, turmoil_fs::EnterCtx { now: self.now, on_corruption: None });
+        // a fresh read-only handle, so that closed files can be inspected too
+        match OpenOptions::new().read(true).open(path(k)) {
+            Ok(f) => {
+                let mut b = vec![0u8; 4096];
+                let n = f.read_at(&mut b, 0).unwrap_or(0);
+                b.truncate(n);
+                b
+            }
+            Err(_) => b"\xff\xfe".to_vec(),
+        }
+    }
+
+    fn exec(&mut self, op: &Op) -> (Vec<String>, String) {
+        let mut ora = vec![];
+        let obs = match op {
+            Op::NewRing(entries) => {
+                let entries = *entries;
+                self.entered(|w| match IoUring::new(entries) {
+                    Err(_) => "invalid".to_string(),
+                    Ok(ring) => {
+                        let afd = AsyncFd::new(FdOnly(ring.as_raw_fd())).ok();
+                        w.rings.push(RingH { ring: Some(ring), cq: None, afd });
+                        format!("ring {}", w.rings.len() - 1)
+                    }
+                })
+            }
+            Op::Push { ring, ud, kind, link } => {
+                let fdraw = match kind {
+                    Kind::Read { fd, .. } | Kind::Write { fd, .. } | Kind::Fsync { fd } => self.raw_fd(*fd),
+                    _ => 0,
+                };
+                let buf: Box<[u8]> = match kind {
+                    Kind::Read { len, .. } => vec![SENTINEL; *len as usize].into_boxed_slice(),
+                    Kind::Write { data, .. } => data.clone().into_boxed_slice(),
+                    _ => Box::new([]),
+                };
+                self.bufs.push(buf);
+                let bi = self.bufs.len() - 1;
+                let ptr = self.bufs[bi].as_mut_ptr();
+                let mut entry = match kind {
+                    Kind::Read { off, len, .. } => opcode::Read::new(types::Fd(fdraw), ptr, *len).offset(*off).build(),
+                    Kind::Write { off, data, .. } => {
+                        opcode::Write::new(types::Fd(fdraw), ptr as *const u8, data.len() as u32).offset(*off).build()
+                    }
+                    Kind::Fsync { .. } => opcode::Fsync::new(types::Fd(fdraw)).build(),
+                    Kind::Cancel { target } => opcode::AsyncCancel::new(*target).build(),
+                }
+                .user_data(*ud);
+                if *link {
+                    entry = entry.flags(squeue::Flags::IO_LINK);
+                }
+                let (ring, ud, kind, link) = (*ring, *ud, kind.clone(), *link);
+                self.entered(|w| {
+                    let Some(rh) = w.rings.get_mut(ring as usize) else { return "invalid".to_string() };
+                    let Some(r) = rh.ring.as_mut() else { return "invalid".to_string() };
+                    match unsafe { r.submission().push(&entry) } {
+                        Ok(()) => {
+                            let gen = match &kind {
+                                Kind::Read { fd, .. } | Kind::Write { fd, .. } | Kind::Fsync { fd } => {
+                                    w.gen.get(*fd as usize).copied().unwrap_or(0)
+                                }
+                                _ => 0,
+                            };
+                            w.sqes.push(SqeInfo { ring, ud, kind, link, buf: bi, done: false, gen });
+                            "pushed".to_string()
+                        }
+                        Err(_) => "full".to_string(),
+                    }
+                })
+            }
+            Op::Submit { ring, mode, want } => {
+                let (ring, mode, want) = (*ring, *mode, *want);
+                let _ = turmoil_io_uring::verif::take_latencies();
+                let res = self.entered(|w| {
+                    let Some(rh) = w.rings.get(ring as usize) else { return "invalid".to_string() };
+                    let Some(r) = rh.ring.as_ref() else { return "invalid".to_string() };
+                    let res = match mode {
+                        0 => r.submit(),
+                        1 => r.submit_and_wait(want as usize),
+                        _ => {
+                            let ts = types::Timespec::new().sec(1).nsec(1_500_000_000);
+                            let args = types::SubmitArgs::new().timespec(&ts);
+                            r.submitter().submit_with_args(0, &args)
+                        }
+                    };
+                    match res {
+                        Ok(n) => format!("submitted {n}"),
+                        Err(e) => format!("err {}", util::io_kind(&e)),
+                    }
+                });
+                let lats = turmoil_io_uring::verif::take_latencies();
+                if !lats.is_empty() {
+                    ora.push(format!(
+                        "lat {}",
+                        lats.iter().map(|(ud, d)| format!("{ud}:{}", d.as_nanos())).collect::<Vec<_>>().join(" ")
+                    ));
+                }
+                res
+            }
+            Op::CqNew(ring) => {
+                let ring = *ring;
+                self.entered(|w| {
+                    let Some(rh) = w.rings.get_mut(ring as usize) else { return "invalid".to_string() };
+                    let Some(r) = rh.ring.as_ref() else { return "invalid".to_string() };
+                    let cq = unsafe { std::mem::transmute::<CompletionQueue<'_>, CompletionQueue<'static>>(r.completion_shared()) };
+                    rh.cq = Some(cq);
+                    "unit".to_string()
+                })
+            }
+            Op::CqSync(ring) => {
+                let ring = *ring;
+                self.entered(|w| {
+                    let Some(rh) = w.rings.get_mut(ring as usize) else { return "invalid".to_string() };
+                    let Some(cq) = rh.cq.as_mut() else { return "invalid".to_string() };
+                    cq.sync();
+                    format!("synced {}", cq.len())
+                })
+            }
+            Op::Next(ring) | Op::NextOpt(ring) => {
+                let ring = *ring;
+                let got = self.entered(|w| {
+                    let rh = w.rings.get_mut(ring as usize)?;
+                    let cq = rh.cq.as_mut()?;
+                    Some(cq.next().map(|e| (e.user_data(), e.result())))
+                });
+                match got {
+                    None => "invalid".to_string(),
+                    Some(None) => "none".to_string(),
+                    Some(Some((ud, res))) => {
+                        // which submission is this? first not-yet-completed entry of this ring with that ud
+                        let idx = self.sqes.iter().position(|s| s.ring == ring && s.ud == ud && !s.done);
+                        let (buf, twin_res, twin_buf) = match idx {
+                            None => (vec![], 0i64, vec![]),
+                            Some(i) => {
+                                self.sqes[i].done = true;
+                                let kind = self.sqes[i].kind.clone();
+                                let link = self.sqes[i].link;
+                                let buf = match kind {
+                                    Kind::Read { .. } => self.bufs[self.sqes[i].buf].to_vec(),
+                                    _ => vec![],
+                                };
+                                // the effect is legitimately skipped for rejected flags and for cancelled targets
+                                let skipped = link || res == -125;
+                                // the fd in the SQE is dead if its file was closed (or closed and reopened) since
+                                let fd_dead = match &kind {
+                                    Kind::Read { fd, .. } | Kind::Write { fd, .. } | Kind::Fsync { fd } => {
+                                        let k = *fd as usize;
+                                        k >= self.files.len() || self.files[k].is_none() || self.gen[k] != self.sqes[i].gen
+                                    }
+                                    _ => false,
+                                };
+                                let (tr, tb) = if fd_dead && !skipped {
+                                    (-9, match kind {
+                                        Kind::Read { len, .. } => vec![SENTINEL; len as usize],
+                                        _ => vec![],
+                                    })
+                                } else if skipped || matches!(kind, Kind::Cancel { .. }) {
+                                    (res as i64, match kind {
+                                        Kind::Read { len, .. } => vec![SENTINEL; len as usize],
+                                        _ => vec![],
+                                    })
+                                } else {
+                                    self.twin_apply(&kind)
+                                };
+                                (buf, tr, tb)
+                            }
+                        };
+                        format!("cqe {ud} {res} buf={} twin={twin_res} twinbuf={}", hex(&buf), hex(&twin_buf))
+                    }
+                }
+            }
+            Op::Readable(ring) => {
+                let ring = *ring;
+                self.entered(|w| {
+                    let Some(rh) = w.rings.get(ring as usize) else { return "invalid".to_string() };
+                    let Some(afd) = rh.afd.as_ref() else { return "invalid".to_string() };
+                    let mut fut = Box::pin(afd.readable());
+                    let r = match poll_once(fut.as_mut()) {
+                        Poll::Pending => "pending".to_string(),
+                        Poll::Ready(Ok(_)) => "ready".to_string(),
+                        Poll::Ready(Err(e)) => format!("err {}", util::io_kind(&e)),
+                    };
+                    drop(fut);
+                    r
+                })
+            }
+            Op::DropRing(ring) => {
+                let ring = *ring;
+                self.entered(|w| {
+                    let Some(rh) = w.rings.get_mut(ring as usize) else { return "invalid".to_string() };
+                    rh.ring = None;
+                    "unit".to_string()
+                })
+            }
+            Op::Advance(ns) => {
+                self.now += Duration::from_nanos(*ns);
+                "unit".into()
+            }
+            Op::Crash => {
+                // host software dies: its files and rings are dropped by `Rt::crash` while no subsystem is
+                // entered (so `IoUring::drop` cannot unregister), then `Fs::crash` and `IoUringHostState::crash`.
+                for f in self.files.iter_mut() {
+                    if let Some(f) = f.take() {
+                        let fs = self.fs.clone();
+                        let _g = turmoil_fs::enter(&fs, turmoil_fs::EnterCtx { now: self.now, on_corruption: None });
+                        drop(f);
+                    }
+                }
+                for f in self.twin_files.iter_mut() {
+                    if let Some(f) = f.take() {
+                        let fs = self.twin.clone();
+                        let _g = turmoil_fs::enter(&fs, turmoil_fs::EnterCtx { now: self.now, on_corruption: None });
+                        drop(f);
+                    }
+                }
+                // ring *handles* stay with the harness on purpose (stale handles are then exercised);
+                // IoUring::drop outside `enter` is a no-op, exactly as in Sim::crash
+                self.fs.lock().unwrap().crash();
+                self.twin.lock().unwrap().crash();
+                self.iou.lock().unwrap().crash();
+                "unit".into()
+            }
+            Op::FWrite { fd, off, data } => {
+                let (fd, off, data) = (*fd, *off, data.clone());
+                let r = self.entered(|w| match w.files.get(fd as usize).and_then(|f| f.as_ref()) {
+                    None => -9i64,
+                    Some(f) => f.write_at(&data, off).map(|n| n as i64).unwrap_or(-5),
+                });
+                let (tr, _) = self.twin_apply(&Kind::Write { fd, off, data });
+                format!("io {r} buf=- twin={tr} twinbuf=-")
+            }
+            Op::FRead { fd, off, len } => {
+                let (fd, off, len) = (*fd, *off, *len);
+                let (r, b) = self.entered(|w| {
+                    let mut b = vec![SENTINEL; len as usize];
+                    match w.files.get(fd as usize).and_then(|f| f.as_ref()) {
+                        None => (-9i64, b),
+                        Some(f) => {
+                            let r = f.read_at(&mut b, off).map(|n| n as i64).unwrap_or(-5);
+                            (r, b)
+                        }
+                    }
+                });
+                let (tr, tb) = self.twin_apply(&Kind::Read { fd, off, len });
+                format!("io {r} buf={} twin={tr} twinbuf={}", hex(&b), hex(&tb))
+            }
+            Op::FSync { fd } => {
+                let fd = *fd;
+                let r = self.entered(|w| match w.files.get(fd as usize).and_then(|f| f.as_ref()) {
+                    None => -9i64,
+                    Some(f) => f.sync_all().map(|_| 0i64).unwrap_or(-5),
+                });
+                let (tr, _) = self.twin_apply(&Kind::Fsync { fd });
+                format!("io {r} buf=- twin={tr} twinbuf=-")
+            }
+            Op::FClose(fd) => {
+                let fd = *fd as usize;
+                if fd >= self.files.len() {
+                    "invalid".into()
+                } else {
+                    if let Some(f) = self.files[fd].take() {
+                        self.stale_fd[fd] = f.as_raw_fd();
+                        self.entered(|_| drop(f));
+                    }
+                    if let Some(f) = self.twin_files[fd].take() {
+                        let twin = self.twin.clone();
+                        let _g = turmoil_fs::enter(&twin, turmoil_fs::EnterCtx { now: self.now, on_corruption: None });
+                        drop(f);
+                    }
+                    "unit".into()
+                }
+            }
+            Op::FOpen(fd) => {
+                let fd = *fd as usize;
+                if fd >= self.files.len() {
+                    "invalid".into()
+                } else {
+                    if self.files[fd].is_none() {
+                        let f = self.entered(|_| open_rw(&path(fd)).ok());
+                        self.files[fd] = f;
+                        self.gen[fd] += 1;
+                    }
+                    if self.twin_files[fd].is_none() {
+                        let twin = self.twin.clone();
+                        let _g = turmoil_fs::enter(&twin, turmoil_fs::EnterCtx { now: self.now, on_corruption: None });
+                        self.twin_files[fd] = open_rw(&path(fd)).ok();
+                    }
+                    "unit".into()
+                }
+            }
+            Op::Final => {
+                let n = self.cfg.nfiles as usize;
+                let main: Vec<String> = (0..n).map(|k| hex(&self.whole_file(false, k))).collect();
+                let twin: Vec<String> = (0..n).map(|k| hex(&self.whole_file(true, k))).collect();
+                // read buffers of submissions that never produced a data-carrying completion must be untouched
+                let mut unt = vec![];
+                for s in &self.sqes {
+                    if let Kind::Read { .. } = s.kind {
+                        if !s.done {
+                            let clean = self.bufs[s.buf].iter().all(|b| *b == SENTINEL);
+                            unt.push(format!("{}:{}", s.ud, if clean { 1 } else { 0 }));
+                        }
+                    }
+                }
+                format!(
+                    "final files={} twinfiles={} untouched={}",
+                    main.join(","),
+                    twin.join(","),
+                    if unt.is_empty() { "-".to_string() } else { unt.join(",") }
+                )
+            }
+        };
+        (ora, obs)
+    }
+
+    fn teardown(mut self) {
+        // drop ring handles while entered so that they unregister; files likewise
+        let rings = std::mem::take(&mut self.rings);
+        self.entered(|_| drop(rings));
+        let files = std::mem::take(&mut self.files);
+        self.entered(|_| drop(files));
+        let tf = std::mem::take(&mut self.twin_files);
+        let twin = self.twin.clone();
+        let _g = turmoil_fs::enter(&twin, turmoil_fs::EnterCtx { now: self.now, on_corruption: None });
+        drop(tf);
+    }
+}
+
+#[derive(Clone)]
+pub struct Case {
+    family: &'static str,
+    cfg: Cfg,
+    ops: Vec<Op>,
+}
+
+fn cfg_line(c: &Cfg) -> String {
+    format!(
+        "CFG nfiles={} latmin={} latmax={} cache={} fsseed={} init={}",
+        c.nfiles,
+        c.lat_min,
+        c.lat_max,
+        c.cache as u8,
+        c.fs_seed,
+        c.init.iter().map(|b| hex(b)).collect::<Vec<_>>().join(",")
+    )
+}
+
+fn run_case(case: &Case) -> Vec<String> {
+    let case = case.clone();
+    let handle = std::thread::Builder::new()
+        .name("case".into())
+        .spawn(move || {
+            util::install_quiet_panic_hook();
+            // AsyncFd::readable arms tokio timers: give it a paused runtime context
+            let rt = tokio::runtime::Builder::new_current_thread().enable_time().start_paused(true).build().expect("rt");
+            let _e = rt.enter();
+            let mut lines = vec![];
+            let mut w = World::new(case.cfg.clone());
+            let mut dry: BTreeMap<u32, bool> = BTreeMap::new();
+            for op in &case.ops {
+                match op {
+                    Op::NextOpt(r) if dry.get(r).copied().unwrap_or(false) => continue,
+                    Op::CqSync(r) => {
+                        dry.insert(*r, false);
+                    }
+                    _ => {}
+                }
+                lines.push(format!("OP {}", op.text()));
+                match catch(|| w.exec(op)) {
+                    Ok((ora, obs)) => {
+                        if let Op::NextOpt(r) = op {
+                            if obs == "none" || obs == "invalid" {
+                                dry.insert(*r, true);
+                            }
+                        }
+                        for o in ora {
+                            lines.push(format!("ORA {o}"));
+                        }
+                        lines.push(format!("OBS {obs}"));
+                    }
+                    Err(class) => {
+                        lines.push(format!("OBS panic {class}"));
+                        std::mem::forget(w);
+                        return lines;
+                    }
+                }
+            }
+            let _ = catch(move || w.teardown());
+            lines
+        })
+        .expect("spawn");
+    match handle.join() {
+        Ok(l) => l,
+        Err(_) => vec!["OBS panic harness".into()],
+    }
+}
+
+// ---- generators -----------------------------------------------------------------------------------
+
+struct GenParams {
+    family: &'static str,
+    nrings: u32,
+    nfiles: u32,
+    len: usize,
+    w_push: u64,
+    w_submit: u64,
+    w_cancel: u64,
+    w_advance: u64,
+    w_drain: u64,
+    w_readable: u64,
+    w_file: u64,
+    w_close: u64,
+    w_link: u64,
+    w_dropring: u64,
+    w_crash: u64,
+    dup_ud: bool,
+}
+
+fn gen_cfg(rng: &mut Rng, nfiles: u32) -> Cfg {
+    let (lat_min, lat_max) = match rng.below(6) {
+        0 => (0, 0),
+        1 => (1_000_000, 1_000_000),
+        2 => (50_000, 50_000),
+        3 => (10_000, 5_000_000),
+        4 => (50_000, 5_000_000),
+        _ => (1_000, 2_000_000),
+    };
+    let init = (0..nfiles)
+        .map(|_| {
+            let n = *rng.pick(&[0usize, 3, 8, 20]);
+            (0..n).map(|_| rng.below(200) as u8 + 1).collect()
+        })
+        .collect();
+    Cfg { nfiles, lat_min, lat_max, cache: lat_max > 0 && rng.chance(1, 3), fs_seed: rng.next() % 1_000_000, init }
+}
+
+const ADVANCES: [u64; 8] = [0, 100, 10_000, 50_000, 1_000_000, 1_000_000, 5_000_000, 20_000_000];
+
+/// Random, state-aware history.
+fn gen_history(rng: &mut Rng, p: &GenParams) -> (Cfg, Vec<Op>) {
+    let cfg = gen_cfg(rng, p.nfiles);
+    let mut ops = vec![];
+    let mut ring_live: Vec<bool> = vec![];
+    let mut next_ud: u64 = 1;
+    let mut submitted_uds: Vec<u64> = vec![];
+    let mut pushed_uds: Vec<u64> = vec![];
+    let depths = [1u32, 2, 3, 4, 8];
+    for _ in 0..p.nrings {
+        ops.push(Op::NewRing(*rng.pick(&depths)));
+        ring_live.push(true);
+        ops.push(Op::CqNew(ring_live.len() as u32 - 1));
+    }
+    let total = p.w_push + p.w_submit + p.w_cancel + p.w_advance + p.w_drain + p.w_readable + p.w_file + p.w_close + p.w_dropring + p.w_crash;
+    let mut crashed = false;
+    while ops.len() < p.len {
+        let live: Vec<u32> = ring_live.iter().enumerate().filter(|(_, l)| **l).map(|(i, _)| i as u32).collect();
+        let any_ring = if ring_live.is_empty() { 0 } else { rng.below(ring_live.len() as u64) as u32 };
+        let ring = if !live.is_empty() && rng.chance(9, 10) { *rng.pick(&live) } else { any_ring };
+        let mut x = rng.below(total);
+        macro_rules! take {
+            ($w:expr) => {{
+                if x < $w {
+                    true
+                } else {
+                    x -= $w;
+                    false
+                }
+            }};
+        }
+        if take!(p.w_push) {
+            let fd = if rng.chance(1, 25) { p.nfiles } else { rng.below(p.nfiles as u64) as u32 };
+            if p.dup_ud && rng.chance(1, 4) {
+                // the same user_data again — with the identical operation, so that attribution is immaterial
+                let prev: Vec<Op> = ops.iter().filter(|o| matches!(o, Op::Push { kind, .. } if !matches!(kind, Kind::Read { .. } | Kind::Cancel { .. }))).cloned().collect();
+                if !prev.is_empty() {
+                    if let Op::Push { ud, kind, link, .. } = rng.pick(&prev).clone() {
+                        pushed_uds.push(ud);
+                        ops.push(Op::Push { ring, ud, kind, link });
+                        continue;
+                    }
+                }
+            }
+            let ud = {
+                next_ud += 1;
+                next_ud - 1
+            };
+            let kind = match rng.below(10) {
+                0..=3 => Kind::Read { fd, off: rng.below(12), len: rng.range(1, 8) as u32 },
+                4..=7 => {
+                    let n = rng.range(1, 6) as usize;
+                    Kind::Write { fd, off: rng.below(12), data: (0..n).map(|_| rng.below(255) as u8).collect() }
+                }
+                _ => Kind::Fsync { fd },
+            };
+            let link = rng.below(100) < p.w_link;
+            pushed_uds.push(ud);
+            ops.push(Op::Push { ring, ud, kind, link });
+            // bursts fill the queue
+            if rng.chance(1, 3) {
+                continue;
+            }
+        } else if take!(p.w_submit) {
+            let mode = match rng.below(12) {
+                0 => 1,
+                1 => 2,
+                _ => 0,
+            };
+            ops.push(Op::Submit { ring, mode, want: rng.below(3) as u32 });
+            if mode != 2 {
+                submitted_uds.append(&mut pushed_uds.clone());
+            }
+        } else if take!(p.w_cancel) {
+            let target = if !submitted_uds.is_empty() && rng.chance(5, 6) {
+                *rng.pick(&submitted_uds)
+            } else if !pushed_uds.is_empty() && rng.chance(1, 2) {
+                *rng.pick(&pushed_uds)
+            } else {
+                9_000 + rng.below(5)
+            };
+            let ud = next_ud;
+            next_ud += 1;
+            pushed_uds.push(ud);
+            ops.push(Op::Push { ring, ud, kind: Kind::Cancel { target }, link: false });
+            if rng.chance(2, 3) {
+                ops.push(Op::Submit { ring, mode: 0, want: 0 });
+                submitted_uds.append(&mut pushed_uds.clone());
+            }
+        } else if take!(p.w_advance) {
+            ops.push(Op::Advance(*rng.pick(&ADVANCES)));
+        } else if take!(p.w_drain) {
+            match rng.below(8) {
+                0 => ops.push(Op::CqNew(ring)),
+                1 => ops.push(Op::Next(ring)), // next without a fresh sync
+                2 => {
+                    // sync, let time pass, then iterate
+                    ops.push(Op::CqSync(ring));
+                    ops.push(Op::Advance(*rng.pick(&ADVANCES)));
+                    ops.push(Op::Next(ring));
+                }
+                3 | 4 => {
+                    // partial drain
+                    ops.push(Op::CqSync(ring));
+                    ops.push(Op::Next(ring));
+                }
+                _ => {
+                    ops.push(Op::CqSync(ring));
+                    for _ in 0..rng.range(1, 5) {
+                        ops.push(Op::Next(ring));
+                    }
+                }
+            }
+        } else if take!(p.w_readable) {
+            ops.push(Op::Readable(ring));
+            if rng.chance(1, 2) {
+                ops.push(Op::CqSync(ring));
+                ops.push(Op::Next(ring));
+            }
+        } else if take!(p.w_file) {
+            let fd = rng.below(p.nfiles as u64) as u32;
+            match rng.below(3) {
+                0 => {
+                    let n = rng.range(1, 5) as usize;
+                    ops.push(Op::FWrite { fd, off: rng.below(12), data: (0..n).map(|_| rng.below(255) as u8).collect() });
+                }
+                1 => ops.push(Op::FRead { fd, off: rng.below(12), len: rng.range(1, 8) as u32 }),
+                _ => ops.push(Op::FSync { fd }),
+            }
+        } else if take!(p.w_close) {
+            let fd = rng.below(p.nfiles as u64) as u32;
+            if rng.chance(1, 2) {
+                ops.push(Op::FClose(fd));
+            } else {
+                ops.push(Op::FOpen(fd));
+            }
+        } else if take!(p.w_dropring) {
+            if rng.chance(1, 2) {
+                ops.push(Op::DropRing(ring));
+                if let Some(l) = ring_live.get_mut(ring as usize) {
+                    *l = false;
+                }
+            } else {
+                ops.push(Op::NewRing(*rng.pick(&depths)));
+                ring_live.push(true);
+                ops.push(Op::CqNew(ring_live.len() as u32 - 1));
+            }
+        } else if !crashed || rng.chance(1, 3) {
+            crashed = true;
+            ops.push(Op::Crash);
+            // stale handles are used by whatever follows; then re-use
+            if rng.chance(2, 3) {
+                for f in 0..p.nfiles {
+                    ops.push(Op::FOpen(f));
+                }
+                ops.push(Op::NewRing(*rng.pick(&depths)));
+                for l in ring_live.iter_mut() {
+                    *l = false;
+                }
+                ring_live.push(true);
+                ops.push(Op::CqNew(ring_live.len() as u32 - 1));
+            }
+        }
+    }
+    closing(&mut ops, ring_live.len() as u32);
+    (cfg, ops)
+}
+
+/// Drain every ring completely, then take the final observation.
+fn closing(ops: &mut Vec<Op>, nrings: u32) {
+    for r in 0..nrings {
+        ops.push(Op::Submit { ring: r, mode: 0, want: 0 });
+    }
+    ops.push(Op::Advance(100_000_000));
+    for r in 0..nrings {
+        for _round in 0..2 {
+            ops.push(Op::CqSync(r));
+            for _ in 0..24 {
+                ops.push(Op::NextOpt(r));
+            }
+        }
+    }
+    ops.push(Op::Final);
+}
+
+/// Every prefix of a short base history, followed by a crash and re-use.
+fn crash_points(rng: &mut Rng, out: &mut Vec<Case>, n_bases: usize) {
+    for _ in 0..n_bases {
+        let p = GenParams {
+            family: "crashpoint",
+            nrings: 1,
+            nfiles: 1,
+            len: rng.range(6, 12) as usize,
+            w_push: 40,
+            w_submit: 20,
+            w_cancel: 6,
+            w_advance: 12,
+            w_drain: 16,
+            w_readable: 2,
+            w_file: 4,
+            w_close: 0,
+            w_link: 0,
+            w_dropring: 0,
+            w_crash: 0,
+            dup_ud: false,
+        };
+        let cfg = gen_cfg(rng, 1);
+        let (_, mut base) = gen_history(rng, &p);
+        // strip the closing phase
+        while let Some(last) = base.last() {
+            if matches!(last, Op::Final | Op::NextOpt(_) | Op::CqSync(_) | Op::Advance(100_000_000)) {
+                base.pop();
+            } else {
+                break;
+            }
+        }
+        if let Some(Op::Submit { .. }) = base.last() {
+            base.pop();
+        }
+        for cut in 2..=base.len() {
+            let mut ops: Vec<Op> = base[..cut].to_vec();
+            ops.push(Op::Crash);
+            // the dead ring's handle is tried first
+            ops.push(Op::Push { ring: 0, ud: 700, kind: Kind::Fsync { fd: 0 }, link: false });
+            ops.push(Op::Submit { ring: 0, mode: 0, want: 0 });
+            ops.push(Op::Advance(50_000_000));
+            ops.push(Op::Readable(0));
+            ops.push(Op::CqSync(0));
+            ops.push(Op::Next(0));
+            // bounce: new software, new ring, reopen
+            ops.push(Op::FOpen(0));
+            ops.push(Op::NewRing(2));
+            ops.push(Op::CqNew(1));
+            ops.push(Op::Push { ring: 1, ud: 800, kind: Kind::Read { fd: 0, off: 0, len: 8 }, link: false });
+            ops.push(Op::Push { ring: 1, ud: 801, kind: Kind::Write { fd: 0, off: 1, data: vec![0x11, 0x22] }, link: false });
+            ops.push(Op::Submit { ring: 1, mode: 0, want: 0 });
+            closing(&mut ops, 2);
+            out.push(Case { family: "crashpoint", cfg: cfg.clone(), ops });
+        }
+    }
+}
+
+/// Systematic cancel scenarios: target in the SQ / in flight / matured but not drained / drained / unknown,
+/// single and double cancel, cancel of a cancel.
+fn cancel_matrix(rng: &mut Rng, out: &mut Vec<Case>) {
+    let kinds = [
+        Kind::Read { fd: 0, off: 0, len: 4 },
+        Kind::Write { fd: 0, off: 2, data: vec![0xC1, 0xC2, 0xC3] },
+        Kind::Fsync { fd: 0 },
+    ];
+    for lat in [0u64, 1_000_000] {
+        for kind in kinds.iter() {
+            for stage in 0..5 {
+                for second in 0..3 {
+                    let mut cfg = gen_cfg(rng, 1);
+                    cfg.lat_min = lat;
+                    cfg.lat_max = lat;
+                    cfg.cache = false;
+                    cfg.init = vec![vec![1, 2, 3, 4, 5, 6]];
+                    let mut ops = vec![Op::NewRing(4), Op::CqNew(0)];
+                    ops.push(Op::Push { ring: 0, ud: 20, kind: kind.clone(), link: false });
+                    match stage {
+                        0 => {} // cancel travels in the same batch, after its target
+                        1 => ops.push(Op::Submit { ring: 0, mode: 0, want: 0 }), // in flight
+                        2 => {
+                            ops.push(Op::Submit { ring: 0, mode: 0, want: 0 });
+                            ops.push(Op::Advance(2_000_000)); // matured, undrained
+                        }
+                        3 => {
+                            ops.push(Op::Submit { ring: 0, mode: 0, want: 0 });
+                            ops.push(Op::Advance(2_000_000));
+                            ops.push(Op::CqSync(0));
+                            ops.push(Op::Next(0)); // drained
+                        }
+                        _ => {
+                            // matured and promoted into `ready` by a drain of something else
+                            ops.push(Op::Push { ring: 0, ud: 19, kind: Kind::Fsync { fd: 0 }, link: false });
+                            ops.push(Op::Submit { ring: 0, mode: 0, want: 0 });
+                            ops.push(Op::Advance(2_000_000));
+                            ops.push(Op::CqSync(0));
+                            ops.push(Op::Next(0));
+                        }
+                    }
+                    ops.push(Op::Push { ring: 0, ud: 21, kind: Kind::Cancel { target: 20 }, link: false });
+                    ops.push(Op::Submit { ring: 0, mode: 0, want: 0 });
+                    match second {
+                        1 => {
+                            ops.push(Op::Push { ring: 0, ud: 22, kind: Kind::Cancel { target: 20 }, link: false });
+                            ops.push(Op::Submit { ring: 0, mode: 0, want: 0 });
+                        }
+                        2 => {
+                            ops.push(Op::Push { ring: 0, ud: 22, kind: Kind::Cancel { target: 21 }, link: false });
+                            ops.push(Op::Submit { ring: 0, mode: 0, want: 0 });
+                        }
+                        _ => {}
+                    }
+                    closing(&mut ops, 1);
+                    out.push(Case { family: "cancelmatrix", cfg, ops });
+                }
+            }
+        }
+    }
+}
+
+pub fn main(args: &Args, out: &mut dyn Write) {
+    let mut rng = Rng::new(args.seed);
+    let mut cases: Vec<Case> = vec![];
+    if let Some(pth) = &args.replay {
+        let sc = util::read_case_file(pth);
+        let get = |k: &str, d: u64| sc.cfg.iter().find(|(kk, _)| kk == k).and_then(|(_, v)| v.parse().ok()).unwrap_or(d);
+        let init: Vec<Vec<u8>> = sc
+            .cfg
+            .iter()
+            .find(|(k, _)| k == "init")
+            .map(|(_, v)| v.split(',').map(unhex).collect())
+            .unwrap_or_default();
+        let nfiles = get("nfiles", 1) as u32;
+        let mut init = init;
+        init.resize(nfiles as usize, vec![]);
+        let cfg = Cfg { nfiles, lat_min: get("latmin", 0), lat_max: get("latmax", 0), cache: get("cache", 0) == 1, fs_seed: get("fsseed", 1), init };
+        let ops = sc.ops.iter().filter_map(|t| Op::parse(t)).collect();
+        cases.push(Case { family: "replay", cfg, ops });
+    } else {
+        let scale = match args.tier.as_str() {
+            "thorough" => 30,
+            "search" => 6,
+            _ => 1,
+        };
+        let fam = |family: &'static str| GenParams {
+            family,
+            nrings: 1,
+            nfiles: 1,
+            len: 30,
+            w_push: 34,
+            w_submit: 14,
+            w_cancel: 6,
+            w_advance: 14,
+            w_drain: 20,
+            w_readable: 4,
+            w_file: 4,
+            w_close: 1,
+            w_link: 4,
+            w_dropring: 1,
+            w_crash: 2,
+            dup_ud: false,
+        };
+        let plans: Vec<(GenParams, usize)> = vec![
+            (GenParams { len: 24, w_crash: 0, w_dropring: 0, ..fam("batch") }, 220),
+            (GenParams { nrings: 2, nfiles: 2, len: 40, ..fam("interleave") }, 220),
+            (GenParams { w_cancel: 22, w_push: 30, w_crash: 0, len: 36, ..fam("cancel") }, 200),
+            (GenParams { w_drain: 8, w_advance: 24, w_readable: 16, w_crash: 0, ..fam("asyncfd") }, 120),
+            (GenParams { w_link: 30, w_close: 10, nfiles: 2, ..fam("flagsclosed") }, 120),
+            (GenParams { dup_ud: true, w_cancel: 0, w_crash: 0, ..fam("dupud") }, 80),
+            (GenParams { w_crash: 8, w_dropring: 5, nrings: 2, nfiles: 2, len: 40, ..fam("crashreuse") }, 160),
+        ];
+        for (p, n) in plans {
+            for _ in 0..n * scale {
+                let (cfg, ops) = gen_history(&mut rng, &p);
+                cases.push(Case { family: p.family, cfg, ops });
+            }
+        }
+        cancel_matrix(&mut rng, &mut cases);
+        crash_points(&mut rng, &mut cases, 30 * scale);
+        if let Some(n) = args.cases {
+            cases.truncate(n);
+        }
+    }
+
+    let mut hist: BTreeMap<String, usize> = BTreeMap::new();
+    let mut fam: BTreeMap<&'static str, usize> = BTreeMap::new();
+    let mut total_ops = 0usize;
+    for (n, case) in cases.iter().enumerate() {
+        let seed = rng.next();
+        writeln!(out, "CASE {n} family={} seed={seed}", case.family).unwrap();
+        writeln!(out, "{}", cfg_line(&case.cfg)).unwrap();
+        let lines = run_case(case);
+        for l in &lines {
+            writeln!(out, "{l}").unwrap();
+            let toks: Vec<&str> = l.split_whitespace().collect();
+            if toks[0] == "OP" {
+                total_ops += 1;
+                let name = if toks[2] == "push" { format!("op:push-{}", toks[4]) } else { format!("op:{}", toks[2]) };
+                *hist.entry(name).or_default() += 1;
+            } else if toks[0] == "OBS" {
+                let key = match toks[1] {
+                    "cqe" => {
+                        let res: i64 = toks[3].parse().unwrap_or(0);
+                        if res < 0 { format!("obs:cqe{res}") } else { "obs:cqe-ok".to_string() }
+                    }
+                    "panic" => format!("obs:panic-{}", toks.get(2).unwrap_or(&"")),
+                    "err" => format!("obs:err-{}", toks.get(2).unwrap_or(&"")),
+                    "io" | "final" | "ring" | "submitted" | "synced" => format!("obs:{}", toks[1]),
+                    other => format!("obs:{other}"),
+                };
+                *hist.entry(key).or_default() += 1;
+            }
+        }
+        writeln!(out, "END").unwrap();
+        *fam.entry(case.family).or_default() += 1;
+    }
+    eprintln!("C18 input distribution: cases={} ops={} families={:?}", cases.len(), total_ops, fam);
+    eprintln!("C18 ops/observations: {:?}", hist);
+}
